@@ -17,7 +17,7 @@ from .. import core, tlc, verifyops as vo
 
 PROCS = int(os.environ.get("VERIF_PROCS", "4"))
 SITES_LEDGER = {"NoCert", "NoPub", "RootHex", "RootParse", "LoadPubkeys", "EmptyKeys", "NoBtcKey", "LoadCert",
-                "NoUi", "UiInvalid", "UiHeader", "UiKey", "NoSigner", "SignerInvalid", "SignerHeader",
+                "NoUi", "UiInvalid", "UiHeader", "UiLength", "UiKey", "NoSigner", "SignerInvalid", "SignerHeader",
                 "LegacyLong", "PowLength", "HashMismatch", "Return"}
 SITES_SGX = {"NoCert", "NoPub", "RootLoad", "RootSelf", "Pubkeys", "LoadCert", "NoQuote", "QuoteInvalid",
              "PowHeader", "PowLength", "HashMismatch", "Return"}
@@ -45,14 +45,48 @@ def classes(plan):
         uk = "nobtc" if vo.BTC_PATH not in by else ("btc" if by[vo.BTC_PATH] == plan["ui"]["key"] else "other")
     d = {"plat": plan["plat"], "args": plan["args"], "root": plan["root"], "certfile": plan["certfile"],
          "file": fc, "mh": "%s/%s" % (plan["mh"]["enc"], rel),
-         "pow": "%(exists)s/%(chain)s/%(hdr)s/%(len)s" % plan["pow"]}
+         "pow": "%s/%s/%s/%s" % (plan["pow"]["exists"], plan["pow"]["chain"], plan["pow"]["hdr"], shape(plan["pow"]))}
     if plan["plat"] == "ledger":
-        d["ui"] = "%s/%s/%s/%s" % (plan["ui"]["exists"], plan["ui"]["chain"], plan["ui"]["hdr"], uk)
+        d["ui"] = "%s/%s/%s/%s/%s" % (plan["ui"]["exists"], plan["ui"]["chain"], plan["ui"]["hdr"], uk,
+                                      shape(plan["ui"]))
     return d
+
+
+def n_variants(inp):
+    """How many listed alternatives the classes that deviate in this input have (harness/verifyops lists)."""
+    n = 6                                              # spelling of the keys, how the root is handed over
+    led = inp["plat"] == "ledger"
+    if inp["pow"]["hdr"] == "foreign":
+        n = max(n, 19 if led else 11)
+    if led and inp["ui"]["hdr"] == "foreign":
+        n = max(n, 11)
+    if inp["pow"]["chain"] == "broken" or (led and inp["ui"]["chain"] == "broken"):
+        n = max(n, 10)
+    if inp["root"] != "right" or inp["certfile"] != "ok":
+        n = max(n, 8)
+    if inp["file"]["kind"] != "ok":
+        n = max(n, 10)
+    if inp["pow"]["at"] != "none" or inp["pow"]["tail"] != "any" or inp["pow"]["hdr"] in ("sep", "sepleg") or \
+            (led and (inp["ui"]["at"] != "none" or inp["ui"]["tail"] != "any" or inp["ui"]["hdr"] == "sep")):
+        n = 2                                          # the member itself is the model's explicit choice
+    return n
+
+
+def shape(t):
+    """exact | exact~<tail member> | short | long@suffix:<member> | long@prefix:<member>"""
+    at = t.get("at", "none")
+    if at in ("suffix", "prefix"):
+        return "long@%s:%s" % (at, t["m"])
+    if at == "cut":
+        return "short"
+    return "exact" + ("" if t.get("tail", "any") == "any" else "~" + t["tail"])
 
 
 def signature(clause, plan, outcome):
     if clause == "ReturnIffOk" and outcome == "return":
+        if plan["plat"] == "ledger" and plan["ui"].get("at") in ("cut", "suffix"):
+            return "ReturnIffOk|ledger|accepts a UI message that is not exactly the documented length (%s)" % \
+                plan["ui"]["at"]
         if plan["plat"] == "ledger" and plan["ui"]["hdr"] == "sep":
             return "ReturnIffOk|ledger|accepts a UI header with a foreign version separator"
         if plan["pow"]["hdr"] == "sepleg":
@@ -78,7 +112,7 @@ def run_plan(task):
         vo.cleanup(real)
     printed = vo.parse_output(out)
     tr = vo.trace_of(tid, real, outcome, printed)
-    meta = {"id": tid, "plan": plan, "outcome": outcome, "error_kind": kind, "error": text[:300],
+    meta = {"id": tid, "plan": real.plan, "outcome": outcome, "error_kind": kind, "error": text[:300],
             "site": vo.site_of(outcome, kind, text), "sub": real.sub,
             "listed": vo.pubkey_lines(out) if outcome == "return" else []}
     return tr, meta
@@ -170,9 +204,11 @@ def run(ctx):
         raise core.MachineryError("oracle self-test: %s" % err)
     # 1. design check
     import concurrent.futures as cf
-    mc_cfg = ctx.pick("MC_Verify.cfg", "MC4_Verify.cfg")
-    with cf.ThreadPoolExecutor(max_workers=3) as ex:
+    mc_cfg = ctx.pick("MC_Verify.cfg", "MC3_Verify.cfg")
+    gen_cfgs = ctx.pick(["Gen_Verify.cfg"], ["Gen3_Verify.cfg", "Gen2x_Verify.cfg"])
+    with cf.ThreadPoolExecutor(max_workers=5) as ex:
         f_mc = ex.submit(tlc.check, "Verify", mc_cfg, coverage=ctx.quick, workers=ctx.pick(4, 8))
+        f_gen = [ex.submit(tlc.generate, "GenVerify", g) for g in gen_cfgs]
         f_neg = ex.submit(tlc.run, "Verify", "Neg_Verify.cfg", workers=1)
         f_neg2 = ex.submit(tlc.run, "Verify", "Neg2_Verify.cfg", workers=1)
         r, rn, rn2 = f_mc.result(), f_neg.result(), f_neg2.result()
@@ -188,8 +224,16 @@ def run(ctx):
     res.coverage["negative_configs"] = {"Neg_Verify": "NeverPrints violated (as required)",
                                         "Neg2_Verify": "ReturnIffOk violated by wildcard separator (as required)"}
     # 2. every abstract input of the model
-    behaviours, rg = tlc.generate("GenVerify", ctx.pick("Gen_Verify.cfg", "Gen3_Verify.cfg"))
-    res.add_tlc(rg, "GenVerify behaviours")
+    behaviours, seen_inp = [], set()
+    for g, f in zip(gen_cfgs, f_gen):
+        bs, rg = f.result()
+        res.add_tlc(rg, "GenVerify %s" % g)
+        for b in bs:
+            key = json.dumps(b["inp"], sort_keys=True)
+            if key not in seen_inp:
+                seen_inp.add(key)
+                behaviours.append(b)
+    del seen_inp
     res.coverage["behaviours_generated"] = len(behaviours)
     reached = {"ledger": set(), "sgx": set()}
     for b in behaviours:
@@ -211,7 +255,7 @@ def run(ctx):
     for bi in order:
         b = behaviours[bi]
         if b["ndev"] <= full_upto:
-            nvar = 19 if b["inp"]["pow"]["hdr"] == "foreign" else 11
+            nvar = n_variants(b["inp"])
             for k in range(nvar):
                 p = vo.plan_from_behaviour(b, ctx.rng)
                 p["variant"] = k
